@@ -308,6 +308,7 @@ type corpusItem struct {
 	code    string
 	name    string
 	payload []byte
+	plain   bool
 }
 
 func runMessages(st *baseState, info shard.Info, out *shard.Out, thorough bool, idx *int) {
@@ -326,6 +327,9 @@ func runMessages(st *baseState, info shard.Info, out *shard.Out, thorough bool, 
 			}
 			s.deliver(it.code, "honest", it.name, protocol.VerifFrame(code, it.payload), it.payload, true)
 			out.Count("corpus_items", 1)
+		}
+		if it.plain {
+			continue
 		}
 		depth := 3
 		muts := structMutants(it.payload, depth, "")
